@@ -74,6 +74,36 @@ static void describe_main(uint64_t idx, FILE *f) {
     fprintf(f, ",\"f2\":"); shape_json(f, &FULL[f2]);
 }
 
+/* flood: idx = mtu_index * 6 + variant.  Full see-lists at every alignment of the frame end: a Discover, n distinct
+ * observations (n around the QueryResp capacity), two Queries, a second round. */
+static const int FLOOD_MTUS[] = {576, 577, 578, 579, 580, 581, 582, 583, 584, 585, 586, 587, 588, 589, 590, 591, 592, 593, 594, 595, 1492, 1493, 1500, 9212, 9216};
+#define NFLOOD_MTU ((int)(sizeof FLOOD_MTUS / sizeof FLOOD_MTUS[0]))
+static void exec_flood(uint64_t idx) {
+    int mi = (int)(idx / 6), v = (int)(idx % 6);
+    size_t mtu = (size_t)FLOOD_MTUS[mi];
+    vf_world_init(mtu, (int)A.wifi, (uint8_t)A.fill);
+    MTU = mtu; OWN = W.iface[0].mac;
+    free(recvbuf); recvbuf = malloc(MTU); memset(recvbuf, (int)A.fill, MTU);
+    drv = 0; amap = init_automata_mapping(); asess = init_automata_session();
+    int cap = (int)((mtu - 34) / 20);
+    int n = v == 0 ? cap - 1 : v == 1 ? cap : v == 2 ? cap + 1 : v == 3 ? cap + 2 : v == 4 ? 2 * cap + 1 : cap + 30;
+    pev e = ev_discover(0, ST_M1, ST_M1, 0x1234, 1); deliver_pev(&e);
+    for (int round = 0; round < 2; round++) {
+        for (int k = 0; k < n; k++) {
+            uint8_t f[32]; uint8_t src[6] = {0x00, 0x50, 0x56, (uint8_t)round, (uint8_t)(k >> 8), (uint8_t)k};
+            fb_base(f, OWN, (k % 3 == 0) ? vf_station[ST_BR] : src, 0, (k & 1) ? 0x04 : 0x03, OWN, src, 0);
+            deliver(f, 32, 0);
+        }
+        pev q = ev_query(0, ST_M1, round ? ST_BR : ST_M1, (uint16_t)(5 + round)); deliver_pev(&q); deliver_pev(&q);
+        vf_outcome(vf_trace_hash() ^ (uint64_t)n);
+        vf_trace_clear();
+    }
+}
+static void describe_flood(uint64_t idx, FILE *f) {
+    int mi = (int)(idx / 6), v = (int)(idx % 6);
+    fprintf(f, "\"events\":[%llu],\"flood_mtu\":%d,\"flood_variant\":%d,\"history\":\"Discover; n distinct Probe/Train observations (n = capacity-1, capacity, +1, +2, 2*capacity+1, capacity+30 by variant); Query x2; second round\"", (unsigned long long)idx, FLOOD_MTUS[mi], v);
+}
+
 /* esp32: idx = image * (MTU+1) + L */
 static int NIMG;
 static void exec_esp(uint64_t idx) {
@@ -99,6 +129,7 @@ int main(int argc, char **argv) {
     vf_world_init(A.mtu, A.wifi, (uint8_t)A.fill);
     MTU = A.mtu; OWN = W.iface[0].mac;
     drv = !strcmp(A.mode, "darwin") ? 1 : !strcmp(A.mode, "esp32") ? 2 : 0;
+    int flood = !strcmp(A.mode, "flood");
     build_full();
     NPRE = A.a > 0 ? (int)A.a : (vf_thorough() ? 5 : 3);
     NF1 = A.b > 0 ? (int)A.b : (vf_thorough() ? 40 : 8);
@@ -106,7 +137,7 @@ int main(int argc, char **argv) {
     NF1 = NFIRST;
     recvbuf = malloc(MTU);
     double t0 = vf_now_s();
-    fr_cfg fc = { .exec = drv == 2 ? exec_esp : exec_main, .describe = drv == 2 ? describe_esp : describe_main, .sig_prefix = "memory-safety" };
+    fr_cfg fc = { .exec = flood ? exec_flood : drv == 2 ? exec_esp : exec_main, .describe = flood ? describe_flood : drv == 2 ? describe_esp : describe_main, .sig_prefix = "memory-safety" };
     fr_stats st;
     if (A.replay) {
         FILE *f = fopen(A.replay, "r"); static char buf[1 << 16]; size_t n = f ? fread(buf, 1, sizeof buf - 1, f) : 0; buf[n] = 0; if (f) fclose(f);
@@ -117,11 +148,13 @@ int main(int argc, char **argv) {
         return vf_nviolations() ? 1 : 0;
     }
     uint64_t total, lo, hi;
-    if (drv == 2) { NIMG = NFIRST + 40; total = (uint64_t)NIMG * (MTU + 1); lo = total * (uint64_t)A.part / (uint64_t)A.nparts; hi = total * (uint64_t)(A.part + 1) / (uint64_t)A.nparts; }
+    if (flood) { total = (uint64_t)NFLOOD_MTU * 6; lo = 0; hi = total; }
+    else if (drv == 2) { NIMG = NFIRST + 40; total = (uint64_t)NIMG * (MTU + 1); lo = total * (uint64_t)A.part / (uint64_t)A.nparts; hi = total * (uint64_t)(A.part + 1) / (uint64_t)A.nparts; }
     else { total = (uint64_t)NPRE * (uint64_t)(NF1 + 1) * (uint64_t)NFULL; lo = total * (uint64_t)A.part / (uint64_t)A.nparts; hi = total * (uint64_t)(A.part + 1) / (uint64_t)A.nparts; }
     fr_run(&fc, lo, hi, &st);
     R.evaluations = st.executed; R.exhaustive = st.cap == NULL; R.cap_hit = st.cap;
-    if (drv == 2) vf_sample("esp32 entry: %d frame images x every told length 0..%zu, each handed over as a heap block of exactly that length", NIMG, MTU);
+    if (flood) vf_sample("flood: %d MTUs (every residue mod 20 and 14, PPPoE, jumbo) x 6 see-list sizes around the QueryResp capacity x 2 rounds of [observations ; Query ; Query] under ASan/UBSan", NFLOOD_MTU);
+    else if (drv == 2) vf_sample("esp32 entry: %d frame images x every told length 0..%zu, each handed over as a heap block of exactly that length", NIMG, MTU);
     else vf_sample("%s flavour: %d prefixes x (%d first frames + none) x %d second frames (per-opcode field-class products, all 256 opcodes), MTU %zu, receive buffer malloc(MTU) pre-filled with 0x%02x; executions [%llu,%llu) of %llu", drv ? "darwin" : "linux", NPRE, NF1, NFULL, MTU, A.fill, (unsigned long long)lo, (unsigned long long)hi, (unsigned long long)total);
     vf_extra("shape_space", "%d second-frame shapes, %d first-frame shapes, %d prefixes", NFULL, NF1, NPRE);
     R.wall_s = vf_now_s() - t0;
